@@ -30,6 +30,9 @@ pub struct ParOpts {
     pub allow_unmatched: bool,
     pub auto_newline_off: bool,
     pub auto_ws_off: bool,
+    /// adds `%skip N98`, `N98: "x";` and the (dead) alternative `<start>: N98;` — the word `x` is then
+    /// skipped in the INITIAL scanner state; inputs may contain it anywhere
+    pub skip_x: bool,
 }
 
 /// PAR text of a plain BNF grammar. Non-terminals are `N00`, `N01`, …; terminals are the one-letter
@@ -54,6 +57,9 @@ pub fn par_text(g: &Gram, o: &ParOpts) -> String {
     if o.allow_unmatched {
         s.push_str("%allow_unmatched\n");
     }
+    if o.skip_x {
+        s.push_str("%skip N98\n");
+    }
     s.push_str("%%\n");
     for (l, r) in &g.prods {
         s.push_str(&crate::cfgenc::nt_name(*l));
@@ -66,6 +72,9 @@ pub fn par_text(g: &Gram, o: &ParOpts) -> String {
             }
         }
         s.push_str(";\n");
+    }
+    if o.skip_x {
+        s.push_str(&format!("{}: N98;\nN98: \"x\";\n", crate::cfgenc::nt_name(g.start)));
     }
     s
 }
@@ -163,7 +172,9 @@ pub fn render_text(w: &[usize], style: u8, o: &ParOpts, rng: &mut Rng) -> String
             s.push(' ');
             return;
         }
-        match rng.below(8) {
+        match rng.below(if o.skip_x { 10 } else { 8 }) {
+            8 => s.push_str(" x "),
+            9 => s.push_str(" x x\n"),
             0 => s.push_str("  "),
             1 => s.push('\n'),
             2 => s.push_str("\r\n"),
@@ -391,4 +402,31 @@ pub fn random_ll_gram(rng: &mut Rng, base: &crate::cfgenc::GenCfg) -> Gram {
         }
     }
     g
+}
+
+/// Productions of the TRANSFORMED grammar in parol's own numbering (`lhs:sym,sym;…`, the encoding
+/// of Model/CfgProto.lean), read from the export model through its JSON form.
+pub fn enc_tprods(b: &Built) -> String {
+    let v = serde_json::to_value(&b.model.productions).expect("productions to json");
+    let ps: Vec<String> = v
+        .as_array()
+        .unwrap()
+        .iter()
+        .map(|p| {
+            let rhs: Vec<String> = p["rhs"]
+                .as_array()
+                .unwrap()
+                .iter()
+                .map(|s| {
+                    if let Some(n) = s.get("NonTerminal") {
+                        format!("n{}", n.as_u64().unwrap())
+                    } else {
+                        format!("t{}", s["Terminal"]["index"].as_u64().unwrap())
+                    }
+                })
+                .collect();
+            format!("{}:{}", p["lhs_index"].as_u64().unwrap(), rhs.join(","))
+        })
+        .collect();
+    if ps.is_empty() { "-".into() } else { ps.join(";") }
 }
